@@ -211,6 +211,10 @@ func (p *Program) ModuleFunctions(rel string) []*ssa.Function {
 			if !strings.HasPrefix(pk, Mod) {
 				continue
 			}
+		} else if rel == "." {
+			if pk != Mod {
+				continue
+			}
 		} else if pk != want {
 			continue
 		}
